@@ -542,6 +542,9 @@ pub fn monitor(prop: &str, c: &SimCase) -> Vec<Finding> {
             if tr.windows(2).any(|w| w[0].t > w[1].t) {
                 out.push(viol("returned trace is not ordered by time".to_string()));
             }
+            if let Err(m) = crate::sim::ordered_with_integration(c) {
+                out.push(viol(m));
+            }
             // every TunnelRecv matches one earlier TunnelSent of the other side, same kind, >= delay before
             for client in [true, false] {
                 for pad in [false, true] {
